@@ -1,2 +1,87 @@
+//! LEF commands (C04, C05, C11, C16).
+use crate::lefabs::*;
+use crate::util::*;
 use crate::CmdFn;
-pub fn commands() -> Vec<(&'static str, CmdFn)> { vec![] }
+use lef21::verif::parse_str;
+use lef21::LefLibrary;
+use serde_json::{json, Value};
+
+pub fn commands() -> Vec<(&'static str, CmdFn)> {
+    vec![("lef_s2i", lef_s2i), ("lef_parse", lef_parse)]
+}
+
+fn strip_vk(v: &Value) -> Value {
+    match v {
+        // BEGINEXT bodies compare as whitespace-normalised text
+        Value::Object(o) if o.contains_key("data") && o.contains_key("name") && o.len() == 2 => {
+            let words: Vec<String> = o["data"].as_array().map(|a| a.iter().map(|w| w.as_str().unwrap().split_whitespace().collect::<Vec<_>>().join(" ")).collect()).unwrap_or_default();
+            json!({"name": o["name"], "data": words.join(" ")})
+        }
+        Value::Object(o) => Value::Object(o.iter().filter(|(k, _)| k.as_str() != "vk").map(|(k, x)| (k.clone(), strip_vk(x))).collect()),
+        Value::Array(a) => Value::Array(a.iter().map(strip_vk).collect()),
+        x => x.clone(),
+    }
+}
+
+/// S->I for C04 (read) and C05 (write + re-read of what the reader produced), under every lexical variant.
+fn lef_s2i(case: &Value) -> Value {
+    let want = strip_vk(&case["lib"]);
+    let toks = geta(case, "toks");
+    let expect_err = getb(case, "expect_err");
+    let mut probs: Vec<Value> = Vec::new();
+    let mut nvar = 0;
+    let mut wrote: std::collections::HashSet<String> = std::collections::HashSet::new();
+    for kw in 0..N_KW { for sep in 0..N_SEP { for sp in 0..N_SP {
+        nvar += 1;
+        let text = render(toks, kw, sep, sp);
+        let var = json!({"kwcase": kw, "sep": sep, "sp": sp});
+        let r = guarded(|| parse_str(&text));
+        let lib: LefLibrary = match r {
+            Err(p) => { probs.push(json!({"stage":"read","outcome":"panic","msg":p,"var":var,"text":trunc(&json!(text))})); continue; }
+            Ok(Err(e)) => {
+                if !expect_err { probs.push(json!({"stage":"read","outcome":"err","msg":err_str(e),"var":var,"text":trunc(&json!(text))})); }
+                continue;
+            }
+            Ok(Ok(l)) => l,
+        };
+        if expect_err { probs.push(json!({"stage":"read","outcome":"accepted-but-error-required","var":var})); continue; }
+        if let Some(d) = json_diff(&want, &lib_json(&lib), "") {
+            probs.push(json!({"stage":"read","outcome":"misread","path":d.0,"want":d.1,"got":d.2,"var":var}));
+            // C05 quantifies over the image of the reader: continue with what was read
+        }
+        // ---- C05: write what the reader produced, read it back
+        let key = format!("{:?}", lib);
+        if !wrote.insert(key) { continue; }
+        match guarded(|| lib.to_string()) {
+            Err(p) => probs.push(json!({"stage":"write","outcome":"panic","msg":p,"var":var})),
+            Ok(Err(e)) => probs.push(json!({"stage":"write","outcome":"err","msg":err_str(e),"var":var})),
+            Ok(Ok(w)) => match guarded(|| parse_str(&w)) {
+                Err(p) => probs.push(json!({"stage":"reread","outcome":"panic","msg":p,"var":var,"written":trunc(&json!(w))})),
+                Ok(Err(e)) => probs.push(json!({"stage":"reread","outcome":"err","msg":err_str(e),"var":var,"written":trunc(&json!(w))})),
+                Ok(Ok(l2)) => {
+                    if l2 != lib || json_diff(&lib_json(&lib), &lib_json(&l2), "").is_some() {
+                        let d = json_diff(&lib_json(&lib), &lib_json(&l2), "");
+                        probs.push(json!({"stage":"reread","outcome":"differs","path":d.as_ref().map(|d| d.0.clone()),
+                                          "want":d.as_ref().map(|d| d.1.clone()),"got":d.as_ref().map(|d| d.2.clone()),"var":var,"written":trunc(&json!(w))}));
+                    }
+                }
+            },
+        }
+    }}}
+    let n = probs.len();
+    // keep one example per (stage, outcome, path, non-ASCII variant?) class
+    let mut seen: std::collections::HashSet<String> = std::collections::HashSet::new();
+    probs.retain(|p| seen.insert(format!("{}|{}|{}|{}", p["stage"], p["outcome"], p.get("path").cloned().unwrap_or(Value::Null), p["var"]["sep"] == 4)));
+    probs.truncate(24);
+    json!({"id": id(case), "outcome":"ok", "variants": nvar, "nproblems": n, "problems": probs})
+}
+
+/// parse a text: {text} -> outcome (+ projection)
+fn lef_parse(case: &Value) -> Value {
+    let text = gets(case, "text");
+    match guarded(|| parse_str(text)) {
+        Err(p) => json!({"id": id(case), "outcome":"panic", "msg": p}),
+        Ok(Err(e)) => json!({"id": id(case), "outcome":"err", "msg": err_str(e)}),
+        Ok(Ok(l)) => json!({"id": id(case), "outcome":"ok", "lib": lib_json(&l)}),
+    }
+}
